@@ -16,9 +16,10 @@ import c01_model
 GEOMS_QUICK = [  # (nd, np, zmode, hashsize, nfiles, holes)
     (2, 1, False, None, 5, False), (3, 2, False, None, 8, True), (2, 3, True, 4, 5, False), (4, 2, False, 8, 9, True),
     (3, 6, False, None, 6, False), (2, 2, False, 4, 6, True), (3, 3, False, None, 7, False), (3, 1, False, 2, 6, False),
+    (3, 1, False, None, 5, False, 'rehash'), (2, 2, False, None, 5, True, 'rehash'),
 ]
 GEOMS_THOROUGH = GEOMS_QUICK + [(4, 4, False, None, 14, True), (4, 3, True, None, 12, True), (2, 5, False, 4, 6, False), (4, 1, False, None, 20, True),
-                                (3, 2, False, 2, 10, True), (2, 6, False, None, 8, True)]
+                                (3, 2, False, 2, 10, True), (2, 6, False, None, 8, True), (4, 2, False, None, 10, False, 'rehash'), (3, 3, False, 8, 8, True, 'rehash')]
 
 
 def tagkey(t):
@@ -30,7 +31,8 @@ def tagkey(t):
 class Arr04:
     def __init__(self, chk, binary, model, geom, seed):
         self.chk, self.geom, self.seed = chk, geom, seed
-        nd, np_, z, hs, nf, holes = geom
+        nd, np_, z, hs, nf, holes = geom[:6]
+        self.kind = geom[6] if len(geom) > 6 else None
         self.rng = random.Random(seed)
         self.arr = a = Array(binary, nd=nd, np_=np_, zmode=z, hashsize=hs)
         self.recipe = populate(a, self.rng, nf, links=False)
@@ -45,6 +47,11 @@ class Arr04:
                 a.remove(d, sub2rel(f['sub']))
                 self.recipe.append(('remove', d, sub2rel(f['sub'])))
                 r = a.run('sync', '--force-empty')
+        if self.kind == 'rehash' and r.rc == 0:
+            # a hash migration in progress: every stripe keeps its old-kind hashes and the rehash flag until a sync / scrub converts it
+            r = a.run('rehash')
+            self.recipe.append(('rehash', r.rc))
+            model = None          # the migration is not in the model: oracle only
         self.n = {'trials': 0, 'model': 0, 'collisions': 0}
         self.samples = []
         if r.rc != 0:
@@ -62,8 +69,8 @@ class Arr04:
         self.used = sorted(p for p, b in self.stripes.items() if b)
 
     def geomstr(self):
-        nd, np_, z, hs, nf, holes = self.geom
-        return 'nd=%d np=%d%s hash=%s' % (nd, np_, ' z' if z else '', hs or 16)
+        nd, np_, z, hs, nf, holes = self.geom[:6]
+        return 'nd=%d np=%d%s hash=%s%s' % (nd, np_, ' z' if z else '', hs or 16, (' ' + self.kind) if self.kind else '')
 
     def data_blocks(self):
         out = []
@@ -206,6 +213,25 @@ class Arr04:
                 bad.append('content file after scrub marks %s bad, damaged stripes are %s' % (marked, exp_bad))
         except Exception as e:
             bad.append('content file after scrub unreadable: %s' % e)
+        if self.kind == 'rehash' and not touched:
+            # the scrub has converted the healthy stripes and must have left the bad ones as they were: the SAME errors, and no
+            # other, are reported by the commands that follow it
+            r = a.run('check')
+            tags = interesting(r.tags)
+            got_data = set(tagkey(t)[0] for t in tags if t.startswith('error:'))
+            got_par = set(h for h, rest in (tagkey(t) for t in tags if t.startswith('parity_error:')) if rest.startswith('Data error'))
+            if got_data != exp_data:
+                bad.append('check AFTER the scrub reports data errors %s, damaged are %s' % (sorted(got_data), sorted(exp_data)))
+            if within and got_par != exp_par:
+                bad.append('check AFTER the scrub reports parity errors %s, damaged are %s' % (sorted(got_par), sorted(exp_par)))
+            r = a.run('check', '-a')
+            got = set(tagkey(t)[0] for t in interesting(r.tags) if t.startswith(('error:', 'parity_error:')))
+            if got != exp_data or (r.rc != 0) != bool(exp_data):
+                bad.append('check -a AFTER the scrub reports %s (exit %d), damaged data blocks are %s' % (sorted(got), r.rc, sorted(exp_data)))
+            r = a.run('scrub', '-p', 'bad')
+            got = set(tagkey(t)[0] for t in interesting(r.tags) if t.startswith('error:'))
+            if got != exp_data:
+                bad.append('scrub -p bad AFTER the scrub reports data errors %s, damaged are %s' % (sorted(got), sorted(exp_data)))
         for b in bad[:2]:
             chk.violation(label, '%s, corruption [%s]: %s' % (self.geomstr(), '; '.join(desc)[:300], b), dict(replay, problems=bad))
         if not bad:
@@ -413,6 +439,60 @@ class Arr04:
         shutil.rmtree(self.arr.root, ignore_errors=True)
 
 
+def large_offset_trial(chk, binary, rng):
+    """a data file larger than 4 GiB (SPARSE: only the tail and a marker are written; block size 4 MiB so that 4 GiB are 1024 blocks),
+    silent corruption in a block that starts beyond 2^32 bytes: check -a and scrub must name exactly that block"""
+    bs_kib = 4096
+    bs = bs_kib * 1024
+    a = Array(binary, nd=2, np_=1, blocksize_kib=bs_kib)
+    out = {}
+    try:
+        p = a.path('d1', 'big')
+        tail = rng.randbytes(2 * bs + 12345)
+        with open(p, 'wb') as f:
+            f.seek(1 << 32)
+            f.write(tail)
+            f.seek(bs + 77)
+            f.write(b'low-part-marker' * 1000)
+        if os.stat(p).st_blocks * 512 > (1 << 30):
+            chk.notes.append('large offsets: the file system does not keep the file sparse, family skipped')
+            return out
+        a.write('d2', 'small', rng.randbytes(3000))
+        t0 = time.time()
+        r = a.run('sync', timeout=600)
+        if r.rc != 0:
+            chk.violation('large_sync', 'sync of an array with a sparse file of 4 GiB + %d bytes (blocksize %d KiB) exits %d: %s' % (len(tail), bs_kib, r.rc, r.err[-200:]), {'kind': 'large'}, no_input=True)
+            return out
+        nblk = ((1 << 32) + len(tail) + bs - 1) // bs
+        idx = rng.choice([1024, 1025, nblk - 1])           # block index in the file = stripe position (first file of the disk)
+        off = idx * bs + rng.randrange(min(bs, (1 << 32) + len(tail) - idx * bs))
+        st = os.stat(p)
+        with open(p, 'r+b') as f:
+            f.seek(off); b = f.read(1)
+            f.seek(off); f.write(bytes([b[0] ^ 0x10]))
+        os.utime(p, ns=(st.st_atime_ns, st.st_mtime_ns))
+        exp = {'error:%d:d1:big' % idx}
+        bad = []
+        r = a.run('check', '-a', timeout=600)
+        got = set(tagkey(t)[0] for t in interesting(r.tags) if t.startswith('error:'))
+        if got != exp or r.rc == 0:
+            bad.append('check -a reports %s (exit %d), the damaged block is %s' % (sorted(got), r.rc, sorted(exp)))
+        r = a.run('scrub', '-p', 'full', timeout=600)
+        got = set(tagkey(t)[0] for t in interesting(r.tags) if t.startswith('error:'))
+        if got != exp or r.rc == 0:
+            bad.append('scrub -p full reports %s (exit %d), the damaged block is %s' % (sorted(got), r.rc, sorted(exp)))
+        r = a.run('status', '-G')
+        got_bad = sorted(int(t.split(':')[1]) for t in r.tags if t.startswith('block:') and t.split(':')[5] == 'bad')
+        if got_bad != [idx]:
+            bad.append('after scrub status lists bad stripes %s, damaged stripe is %d' % (got_bad, idx))
+        out = {'file_bytes': (1 << 32) + len(tail), 'blocksize': bs, 'damaged_block': idx, 'offset': off, 'seconds': round(time.time() - t0, 1)}
+        for b_ in bad[:2]:
+            chk.violation('large_offset', 'file of 4 GiB + %d bytes, blocksize %d KiB, one bit flipped at offset %d (block %d): %s' % (len(tail), bs_kib, off, idx, b_), {'kind': 'large', 'offset': off, 'block': idx, 'problems': bad})
+    finally:
+        shutil.rmtree(a.root, ignore_errors=True)
+    return out
+
+
 def observations04(chk, binary):
     """a behaviour at the edge of the property, measured on every run and recorded in the evidence (proposed key, not a violation until
     the lead lists it): `check` on an array whose whole parity file of one level is gone prints the open error, says "only files
@@ -491,10 +571,16 @@ def main(tier, replay=None):
             A.variants(3 if tier == 'quick' else 25)
         A.close()
         return A
+    lrng = random.Random(rng.getrandbits(32))
     with cf.ThreadPoolExecutor(max_workers=min(8, NCPU)) as ex:
+        lf = ex.submit(large_offset_trial, chk, binary, lrng)      # runs beside the other arrays (mostly kernel time)
         for A in ex.map(one, jobs):
             tot['trials'] += A.n['trials']; tot['model'] += A.n['model']; tot['collisions'] += A.n['collisions']
             samples += A.samples[:1]
+        try:
+            chk.cov['large_offsets'] = lf.result()
+        except Exception as e:
+            chk.notes.append('large offset family failed: %s' % e)
     chk.cov.update({'evaluations': tot['trials'] * 4, 'distinct_nontrivial': tot['trials'],
                     'rule': 'arrays %s (nd, np, z, hash size, files, holes from a delete+sync); EVERY file block and EVERY parity block of every level corrupted alone with shapes from %s (size+mtime kept), swaps of two full blocks of a file, random combinations of 2-5 blocks, and the undamaged array; per trial: exact restore, real check / check -a / scrub -p full / status -G, tag sets compared for equality with the prediction made from the damage list, exit statuses, bad marks from status and from the independently decoded content file; non-trivial = trials (4 commands each)' % ([g[:4] for g in geoms], SHAPES),
                     'commands_replayed_by_model': tot['model'], 'traces_validated_against_impl': tot['model'],
